@@ -7,12 +7,15 @@ use std::io::Write;
 pub mod util;
 #[path = "agent/rbac.rs"]
 pub mod rbac;
+#[path = "agent/proxy.rs"]
+pub mod proxy;
 
 pub fn main() {
     let engine = std::env::var("VERIF_ENGINE").unwrap_or_default();
     // keep the agent's own logging quiet unless an engine sets loggers up itself
     match engine.as_str() {
         "rbac" => rbac::run(),
+        "proxy" => proxy::run(),
         _ => {
             eprintln!("unknown engine {:?}", engine);
             std::process::exit(2);
